@@ -26,6 +26,9 @@ for path in sorted(glob.glob(os.path.join(HERE, "mutants", "*.patch")) + glob.gl
     for p in props:
         st = set(re.findall(r" %s seed=\S+ (DETECTED|MISSED|ERROR[^ ]*)" % p, out))
         status.append("%s:%s" % (p, "/".join(sorted(st)) or ("PATCH-FAILED" if "PATCH-FAILED" in out else ("SUITE-CATCHES" if "SUITE-CATCHES" in out else "?"))))
+    metap = os.path.join(os.path.dirname(path), "meta.json")
+    if os.path.exists(metap) and str(__import__("json").load(open(metap)).get("detected_by", "")).startswith("not detected, deliberately"):
+        status = [x.replace("MISSED", "NOT-JUDGED (see meta.json)") for x in status]
     eg = re.search(r"e\.g\. \['([^']*)'", out)
     rows.append((name, suite.group(1)[:24] if suite else "-", " ".join(status), eg.group(1) if eg else "", round(time.time() - t0)))
     print(rows[-1], flush=True)
@@ -36,4 +39,5 @@ with open(os.path.join(HERE, "mutants", "RESULTS.md"), "w") as fh:
     for r in rows:
         fh.write("| %s | %s | %s | `%s` | %d |\n" % r)
     det = sum(1 for r in rows if "DETECTED" in r[2] and "MISSED" not in r[2])
-    fh.write("\n%d of %d changes detected on every seed by every owning check.\n" % (det, len(rows)))
+    nj = sum(1 for r in rows if "NOT-JUDGED" in r[2])
+    fh.write("\n%d of %d changes detected on every seed by every owning check; %d deliberately not judged.\n" % (det, len(rows), nj))
